@@ -298,7 +298,7 @@ func rootFn(f *ssa.Function) *ssa.Function {
 
 func fnName(f *ssa.Function) string {
 	if f.Signature.Recv() != nil {
-		return f.RelString(f.Pkg.Pkg)
+		return f.RelString(typesPkgOf(f)) // synthetic wrappers have no Pkg (synthwrap.go)
 	}
 	return f.Name()
 }
